@@ -14,20 +14,21 @@ C_Alpha == {<<"[">>, <<"]">>, <<"*">>, <<"-">>, <<" ">>, <<"\n">>, <<"x">>}
 \* configuration D: asymmetric three-byte delimiters
 D_LD == <<"<", "%">>  D_RD == <<"%", ">">>  D_LC == <<"<", "#">>  D_RC == <<"#", ">">>
 D_Alpha == {<<"<">>, <<"%">>, <<">">>, <<"#">>, <<"-">>, <<" ">>, <<"x">>}
+\* <<" ", " ", "-">>: a right trim marker behind exactly one more blank (the lexer has a shortcut for that)
 \* "\f" (form feed) is white space for Unicode but not for Jet: trim markers leave it alone
 \* configuration E: default action delimiters, comment delimiters of unequal length
 E_LD == <<"{", "{">>  E_RD == <<"}", "}">>  E_LC == <<"<", "!", "-", "-">>  E_RC == <<"-", "-", ">">>
 E_Alpha == {<<"{">>, <<"}">>, <<"<">>, <<"!">>, <<"-">>, <<">">>, <<" ">>, <<"x">>}
-E_Tok == {E_LD, E_RD, E_LC, E_RC, <<"-", " ">>, <<" ", "-">>, <<" ">>, <<"\n">>, <<" ", "\n", "\t">>, <<"\f">>, <<"x">>, <<"x", "x">>, <<"a">>,
+E_Tok == {E_LD, E_RD, E_LC, E_RC, <<"-", " ">>, <<" ", "-">>, <<" ", " ", "-">>, <<" ">>, <<"\n">>, <<" ", "\n", "\t">>, <<"\f">>, <<"x">>, <<"x", "x">>, <<"a">>,
            <<E_LD[1]>>, <<E_RD[1]>>, <<E_LC[2]>>, <<"-">>, <<"-", "-">>, <<">">>}
 E_HdrTok == {E_LD \o <<"x">> \o E_RD, E_LD \o <<"-", " ", "x", " ", "-">> \o E_RD, <<" ">>, <<"\n">>, <<"a">>, <<" ", "a">>, <<"\f">>, <<"a", "\f", " ">>}
-A_Tok == {A_LD, A_RD, A_LC, A_RC, <<"-", " ">>, <<" ", "-">>, <<" ">>, <<"\n">>, <<" ", "\n", "\t">>, <<"\f">>, <<"x">>, <<"x", "x">>, <<"a">>,
+A_Tok == {A_LD, A_RD, A_LC, A_RC, <<"-", " ">>, <<" ", "-">>, <<" ", " ", "-">>, <<" ">>, <<"\n">>, <<" ", "\n", "\t">>, <<"\f">>, <<"x">>, <<"x", "x">>, <<"a">>,
            <<A_LD[1]>>, <<A_RD[1]>>, <<A_LC[2]>>, <<"-">>}
-B_Tok == {B_LD, B_RD, B_LC, B_RC, <<"-", " ">>, <<" ", "-">>, <<" ">>, <<"\n">>, <<" ", "\n", "\t">>, <<"\f">>, <<"x">>, <<"x", "x">>, <<"a">>,
+B_Tok == {B_LD, B_RD, B_LC, B_RC, <<"-", " ">>, <<" ", "-">>, <<" ", " ", "-">>, <<" ">>, <<"\n">>, <<" ", "\n", "\t">>, <<"\f">>, <<"x">>, <<"x", "x">>, <<"a">>,
            <<B_LD[1]>>, <<B_RD[1]>>, <<B_LC[2]>>, <<"-">>}
-C_Tok == {C_LD, C_RD, C_LC, C_RC, <<"-", " ">>, <<" ", "-">>, <<" ">>, <<"\n">>, <<" ", "\n", "\t">>, <<"\f">>, <<"x">>, <<"x", "x">>, <<"a">>,
+C_Tok == {C_LD, C_RD, C_LC, C_RC, <<"-", " ">>, <<" ", "-">>, <<" ", " ", "-">>, <<" ">>, <<"\n">>, <<" ", "\n", "\t">>, <<"\f">>, <<"x">>, <<"x", "x">>, <<"a">>,
            <<C_LD[1]>>, <<C_RD[1]>>, <<C_LC[2]>>, <<"-">>}
-D_Tok == {D_LD, D_RD, D_LC, D_RC, <<"-", " ">>, <<" ", "-">>, <<" ">>, <<"\n">>, <<" ", "\n", "\t">>, <<"\f">>, <<"x">>, <<"x", "x">>, <<"a">>,
+D_Tok == {D_LD, D_RD, D_LC, D_RC, <<"-", " ">>, <<" ", "-">>, <<" ", " ", "-">>, <<" ">>, <<"\n">>, <<" ", "\n", "\t">>, <<"\f">>, <<"x">>, <<"x", "x">>, <<"a">>,
            <<D_LD[1]>>, <<D_RD[1]>>, <<D_LC[2]>>, <<"-">>}
 A_HdrTok == {A_LD \o <<"x">> \o A_RD, A_LD \o <<"-", " ", "x", " ", "-">> \o A_RD, <<" ">>, <<"\n">>, <<"a">>, <<" ", "a">>, <<"\f">>, <<"a", "\f", " ">>}
 B_HdrTok == {B_LD \o <<"x">> \o B_RD, B_LD \o <<"-", " ", "x", " ", "-">> \o B_RD, <<" ">>, <<"\n">>, <<"a">>, <<" ", "a">>, <<"\f">>, <<"a", "\f", " ">>}
